@@ -89,6 +89,12 @@ example :
     (sourceText f)[posMap f 18]? = some 121 := by
   decide
 
+/-- **C18 (no overrun in `convert_universal_chars`).**  The text handed to that pass always ends in '\n', for every file
+    (empty, ending in a backslash, in CR, in a BOM …), so its arm `*q++ = *p++; *q++ = *p++;` never copies the terminator
+    and runs past it (the model's `[] => [(a, s)]` arm of `convertUCNAux` is never taken). -/
+theorem C18_text_ends_newline (bytes : List Nat) : (sourceText bytes).getLast? = some LF :=
+  sourceText_last bytes
+
 /-- **C18 (`convert_universal_chars` keeps lines).**  If no universal character name of the text denotes U+000A (every
     '\n' the pass writes is a copy of a '\n' it read — C11 6.4.3p2 forbids `\u000a`), then every byte of the text `tokenize`
     numbers has the line number that the byte it came from had before the pass. -/
